@@ -2,14 +2,21 @@
 (same grids and lead-time-demand tables, recomputed here exactly as the code does) + oracles on the implementation:
 evaluation mode, N = 1 vs newsvendor, exact top-down expected cost by enumeration of lead-time demands, brute-force
 search over level vectors, Shang-Song bracket, relabelling / parameter-shape / network-form invariance."""
-import math, itertools
+import math, itertools, json, os, sys, subprocess
 from fractions import Fraction
 import numpy as np
 from vlib import *
 
 RULE = ('N in 1..3 (quick) / 1..4 (thorough) stages; echelon holding costs k/4, lead times 1..2, stockout cost k/2; demand Poisson(mean 2..8, '
         'random tail-truncation probabilities), discrete uniform, custom discrete on a subset of 0..6 (weights/sum or dyadic probabilities); random node '
-        'ids and list orders, list/dict parameter shape, parameter vs network form; plus a normal-demand stream (oracle only) and a malformed stream. '
+        'ids and list orders, list/dict parameter shape, parameter vs network form; plus a normal-demand stream (oracle only) and a malformed stream; '
+        'plus a session stream: chains of 2..3 closely related instances solved one after the other in the same process (a sensitivity study: same stages, '
+        'costs and lead times, demand parameters perturbed - Poisson mean scaled or shifted by 0.001..0.004, two custom-discrete weights swapped (anywhere or '
+        'only in the upper tail), uniform range widened, normal mean / sd shifted by 0.001..0.004; fresh DemandSource object or the SAME object with its '
+        'attributes re-set), whose base instance is drawn from a fine-parameter regime (slow-moving Poisson demand, mean 0.002..0.06 per period with lead '
+        'times 3..30; Poisson means with 3 decimals; custom discrete demand with 9..12 support points in 0..13; normal mean and sd with 3 decimals) or from '
+        'the regular regime; every instance of a chain gets the full oracle and model comparison, and its in-session result is compared with the result of '
+        'solving it alone in a fresh process. '
         'non-trivial = N >= 2, every S*_j strictly inside the grid and the S*_j not all equal; distinct = distinct (N, h, L, p, demand).')
 
 SIG_EVAL_ORDER = 'optimize_base_stock_levels|S-given|node-order-not-N..1'
@@ -67,6 +74,72 @@ def gen_malformed(rng):
     return c
 
 
+def gen_fine(rng, nmax):
+    """fine-parameter regime: demand parameters that are not round numbers (more than two decimals), slow movers with long lead times,
+    custom-discrete demands with long supports."""
+    reg = rng.choice(['P-slow', 'P-slow', 'P-fine', 'P-fine', 'CD-long', 'CD-long', 'CD-long', 'N-fine'])
+    c = gen_case(rng, nmax if reg != 'N-fine' else min(nmax, 2), kinds=('UD',))      # stages, costs, numbering, shape, form as in the regular stream
+    N = c['N']; c['tails'] = None
+    if reg == 'P-slow':
+        c['dem'] = dict(kind='P', mean=rng.randint(2, 60) / 1000)
+        c['L'] = [rng.randint(3, 30) for _ in range(N)]
+        if rng.random() < 0.4:
+            t = rng.choice([1e-6, 1e-9])
+            c['tails'] = dict(ltd_lower_tail_prob=t, ltd_upper_tail_prob=t, sum_ltd_lower_tail_prob=t, sum_ltd_upper_tail_prob=t)
+    elif reg == 'P-fine':
+        c['dem'] = dict(kind='P', mean=rng.randint(300, 6000) / 1000)
+    elif reg == 'CD-long':
+        sup = sorted(rng.sample(range(0, 14), rng.randint(9, 12)))
+        c['dem'] = dict(kind='CD', support=sup, weights=[rng.randint(1, 9) for _ in sup])
+    else:
+        c['dem'] = dict(kind='N', mean=rng.randint(3000, 8000) / 1000, sd=rng.randint(500, 1500) / 1000)
+        c['grid'] = [400, 100]      # x_num, d_num: with non-round mean / sd the discretisation error of the 120 x 30 grid of the normal stream reaches 5 %
+    c['regime'] = reg
+    return c
+
+
+def gen_sibling(rng, c0):
+    """the next instance of a sensitivity study: everything as in c0 except slightly different demand parameters."""
+    c = json.loads(json.dumps(jsonable(c0))); c.pop('prior', None)
+    d = c['dem']
+    if d['kind'] == 'P':
+        m = d['mean']
+        if m < 0.1 or rng.random() < 0.4: m2 = round(m * rng.choice([0.4, 0.5, 0.65, 1.5, 2, 2.5]), 4)
+        else: m2 = round(m + rng.choice([-1, 1]) * rng.randint(1, 4) / 1000, 4)
+        if m2 <= 0 or m2 == m: m2 = round(m * 1.5, 4)
+        d['mean'] = m2; how = 'mean'
+    elif d['kind'] == 'UD':
+        d['hi'] += rng.randint(1, 2); how = 'range'
+    elif d['kind'] == 'CD':
+        w = d['weights']; n = len(w)
+        idx = list(range(n)); how = 'swap-anywhere'
+        if rng.random() < 0.5: idx = idx[-min(n, rng.randint(2, 4)):]; how = 'swap-in-upper-tail'
+        pairs = [(a, b) for a in idx for b in idx if a < b and w[a] != w[b]]
+        if pairs:
+            a, b = rng.choice(pairs); w[a], w[b] = w[b], w[a]
+        else:
+            w[-1] += 1; how = 'last-weight'
+    else:
+        k = rng.choice(['mean', 'sd']); d[k] = round(d[k] + rng.choice([-1, 1]) * rng.randint(1, 4) / 1000, 4); how = k
+    c['perturbed'] = how
+    return c
+
+
+def gen_chain(rng, nmax):
+    """2..3 closely related instances to be solved one after the other in one process; returns the list of cases, case k carrying its
+    predecessors in c['prior'] (so that a replay can re-create the session)."""
+    c0 = gen_fine(rng, nmax) if rng.random() < 0.75 else gen_case(rng, nmax)
+    reuse = rng.random() < 0.3
+    if reuse: c0['form'] = 'params'
+    c0['reuse_ds'] = reuse
+    chain = [c0]
+    for _ in range(rng.choice([1, 1, 2])):
+        c = gen_sibling(rng, chain[-1])
+        c['prior'] = [{k: v for k, v in q.items() if k != 'prior'} for q in chain]
+        chain.append(c)
+    return chain
+
+
 def make_ds(dem):
     from stockpyl.demand_source import DemandSource
     if dem['kind'] == 'P': return DemandSource(type='P', mean=dem['mean'])
@@ -84,7 +157,16 @@ def node_of_stage(c):
     return {j: c['order_sys'][N - j] for j in range(1, N + 1)}
 
 
-def impl_kwargs(c, order_sys=None, order_lists=None, shape=None, form=None, default_order=None):
+def mutate_ds(ds, dem):
+    """re-set the attributes of an existing DemandSource object (same type)."""
+    if dem['kind'] == 'P': ds.mean = dem['mean']
+    elif dem['kind'] == 'UD': ds.lo = dem['lo']; ds.hi = dem['hi']
+    elif dem['kind'] == 'CD':
+        s = sum(dem['weights']); ds.demand_list = list(dem['support']); ds.probabilities = [w / s for w in dem['weights']]
+    else: ds.mean = dem['mean']; ds.standard_deviation = dem['sd']
+
+
+def impl_kwargs(c, order_sys=None, order_lists=None, shape=None, form=None, default_order=None, ds_obj=None):
     N = c['N']
     os_ = list(order_sys if order_sys is not None else c['order_sys'])
     ol = list(order_lists if order_lists is not None else c['order_lists'])
@@ -99,7 +181,7 @@ def impl_kwargs(c, order_sys=None, order_lists=None, shape=None, form=None, defa
     if c.get('malformed') == 'missing-holding-cost': hb[nos[1]] = None
     hv = dict(hb) if shape == 'dict' else [hb[n] for n in ol]
     Lv = dict(Lb) if shape == 'dict' else [Lb[n] for n in ol]
-    ds = make_ds(c['dem'])
+    ds = ds_obj if ds_obj is not None else make_ds(c['dem'])
     kw = {}
     if form == 'network':
         from stockpyl.supply_chain_network import serial_system
@@ -111,7 +193,7 @@ def impl_kwargs(c, order_sys=None, order_lists=None, shape=None, form=None, defa
         if not default_order:
             kw.update(node_order_in_system=os_, node_order_in_lists=ol)
     if c['tails']: kw.update(c['tails'])
-    if c['dem']['kind'] == 'N': kw.update(x_num=120, d_num=30)
+    if c['dem']['kind'] == 'N': kw.update(x_num=(c.get('grid') or [120, 30])[0], d_num=(c.get('grid') or [120, 30])[1])
     return kw, nos
 
 
@@ -129,6 +211,59 @@ def run_impl(c, S_by_stage=None, **over):
         return ('ok', lv, float(C), {str(k): float(v) for k, v in S.items()})
     except Exception as e:
         return ('err', exc_kind(e), str(e)[:200])
+
+
+def run_chain(c):
+    """solve the instances of c['prior'] and then c, one after the other in this process (each with a fresh DemandSource object, or - reuse_ds - with
+    one object whose attributes are re-set between the calls); returns run_impl's result for c."""
+    ds = None; r = None
+    for q in list(c.get('prior') or []) + [c]:
+        if c.get('reuse_ds'):
+            if ds is None: ds = make_ds(q['dem'])
+            else: mutate_ds(ds, q['dem'])
+            r = run_impl(q, ds_obj=ds, form='params')
+        else:
+            r = run_impl(q)
+    return r
+
+
+def _alone_one(c):
+    return jsonable(run_impl(c))
+
+
+def _alone_main():
+    """child process: solve every case read from stdin ALONE, each in its own process forked from this one before anything was solved."""
+    import multiprocessing as mp
+    import scipy.stats, stockpyl.ssm_serial, stockpyl.supply_chain_network, stockpyl.newsvendor      # imports only - no solve before the fork
+    cases = json.load(sys.stdin)
+    with mp.get_context('fork').Pool(min(8, max(1, len(cases))), maxtasksperchild=1) as pool:
+        out = pool.map(_alone_one, cases, chunksize=1)
+    print('@@ALONE@@' + json.dumps(out))
+
+
+def solve_alone(cases):
+    """result of run_impl for each case when it is the only instance ever solved in its process."""
+    if not cases: return []
+    pr = subprocess.run([sys.executable, '-c', 'import props.c07 as m; m._alone_main()'], input=json.dumps(jsonable(cases)), capture_output=True,
+                        text=True, timeout=1800, cwd=os.path.dirname(os.path.dirname(os.path.abspath(__file__))))
+    for line in pr.stdout.split('\n'):
+        if line.startswith('@@ALONE@@'):
+            out = []
+            for r in json.loads(line[len('@@ALONE@@'):]):
+                if r[0] == 'ok': r[1] = {int(k): v for k, v in r[1].items()}
+                out.append(tuple(r))
+            return out
+    raise RuntimeError('solve_alone: child failed: %s' % (pr.stderr[-400:],))
+
+
+def history_diff(c, r, alone):
+    """r = result for c at the end of its session (after c['prior']), alone = result for c solved alone in a fresh process."""
+    same = r[0] == alone[0] and (r[1:3] == alone[1:3] if r[0] == 'err' else (r[1] == alone[1] and rel_close(r[2], alone[2], 1e-12)))
+    if same: return None
+    return ('optimize_base_stock_levels|result-depends-on-earlier-calls',
+            'solved after %s (%s) the instance with demand %r returns %r, solved alone in a fresh process it returns %r'
+            % (', '.join(repr(q['dem']) for q in c['prior']), 'same DemandSource object, attributes re-set' if c.get('reuse_ds') else 'fresh DemandSource objects',
+               c['dem'], r[1:3], alone[1:3]))
 
 
 # ------------------------------------------------------------------------------------------------ grids / tables exactly as the code builds them
@@ -408,11 +543,22 @@ def case_key(c):
     return json.dumps(jsonable([c['N'], c['h'], c['L'], c['p'], c['dem'], c['tails']]), sort_keys=True)
 
 
-def explore(chk, n, nmax, do_model=True, n_normal=0, n_malformed=0):
+def explore(chk, n, nmax, do_model=True, n_normal=0, n_malformed=0, n_chains=0):
     rng = chk.rng
     cases = [gen_case(rng, nmax) for _ in range(n)] + [gen_case(rng, min(nmax, 3), kinds=('N',)) for _ in range(n_normal)] \
         + [gen_malformed(rng) for _ in range(n_malformed)]
-    impl = [run_impl(c) for c in cases]
+    for _ in range(n_chains): cases += gen_chain(rng, min(nmax, 3))
+    impl = []; ds_cur = None
+    for c in cases:      # the instances of a chain are adjacent in `cases`: solving them in list order IS the session (same effect as run_chain, no re-solve)
+        if c.get('reuse_ds'):
+            if not c.get('prior'): ds_cur = make_ds(c['dem'])
+            else: mutate_ds(ds_cur, c['dem'])
+            impl.append(run_impl(c, ds_obj=ds_cur, form='params'))
+        else:
+            impl.append(run_impl(c))
+    # every instance of a session must get the result it gets when solved alone in a fresh process
+    sess = [i for i, c in enumerate(cases) if c.get('prior')]
+    alone = dict(zip(sess, solve_alone([cases[i] for i in sess])))
     # model: optimisation run for every discrete case, plus an evaluation-mode run (levels perturbed, or very low) for every third
     exprs = []; slots = []
     if do_model:
@@ -437,6 +583,13 @@ def explore(chk, n, nmax, do_model=True, n_normal=0, n_malformed=0):
         chk.count('N=%d' % N); chk.count('demand=%s' % kind); chk.count('form=%s' % c['form']); chk.count('shape=%s' % c['shape'])
         chk.count('numbering=%s' % ('default' if c['default_order'] else ('N..1-explicit' if c['order_sys'] == list(range(N, 0, -1)) else 'relabelled')))
         chk.count('malformed=%s' % c['malformed'])
+        if 'reuse_ds' in c:
+            chk.count('session: position %d, %s' % (len(c.get('prior') or []) + 1, 'same DemandSource object' if c['reuse_ds'] else 'fresh DemandSource objects'))
+            chk.count('session: base regime %s' % (c.get('prior') or [c])[0].get('regime', 'regular'))
+            if c.get('prior'): chk.count('session: perturbed %s' % c['perturbed'])
+        if i in alone:
+            hd = history_diff(c, r, alone[i])
+            if hd: chk.fail(hd[0], hd[1], c)
         if c['malformed']:
             if r[0] != 'err' or r[1] != 'ValueError':
                 chk.fail('optimize_base_stock_levels|malformed-%s-accepted' % c['malformed'], 'malformed input (%s) not rejected with ValueError: %r' % (c['malformed'], r[:3]), c)
@@ -497,18 +650,21 @@ def run(chk):
     chk.extra.setdefault('near_tie_skipped', 0)
     chk.proof()
     if chk.tier == 'quick':
-        explore(chk, 150, 3, n_normal=8, n_malformed=10)
+        explore(chk, 150, 3, n_normal=8, n_malformed=10, n_chains=22)
     else:
-        explore(chk, 1100, 4, n_normal=40, n_malformed=50)
+        explore(chk, 1100, 4, n_normal=40, n_malformed=50, n_chains=150)
     if (chk.broken or chk.mismatches) and not chk.fails:
-        explore(chk, 300 if chk.tier == 'quick' else 1500, 3 if chk.tier == 'quick' else 4, do_model=False, n_normal=10)
+        explore(chk, 300 if chk.tier == 'quick' else 1500, 3 if chk.tier == 'quick' else 4, do_model=False, n_normal=10, n_chains=40 if chk.tier == 'quick' else 200)
 
 
 def replay(chk, rp):
     import random
     c = rp['case']
-    r = run_impl(c)
+    r = run_chain(c) if c.get('prior') else run_impl(c)      # a session case: re-create the session (predecessors first) in this process
     print('implementation:', jsonable(r))
+    if c.get('prior'):
+        hd = history_diff(c, r, solve_alone([c])[0])
+        if hd: chk.fail(hd[0], hd[1], c)
     if c.get('malformed'):
         if r[0] != 'err' or r[1] != 'ValueError':
             chk.fail('optimize_base_stock_levels|malformed-%s-accepted' % c['malformed'], 'not rejected: %r' % (r[:3],), c)
